@@ -9,6 +9,7 @@ import (
 	"go/types"
 	"math/bits"
 	"sort"
+	"strings"
 
 	"golang.org/x/tools/go/ssa"
 )
@@ -562,7 +563,23 @@ func c05KeyLen(c *Ctx, newCipher *ssa.Function, ks map[*ssa.Function]bool) {
 		}
 	})
 	if atom == nil {
-		c.Violated("G-C05-keylen", fname(newCipher), "len(key) == 16 guard", "no comparison of len(key) with 16 (== / !=) found in NewCipher", newCipher.Pos())
+		// the test is not written as len(key) ==/!= 16 in NewCipher itself (another operator, or a helper): decided
+		// on values — for each probe length other than 16 no successful return may be reachable, following error
+		// results of repository helpers that receive the key
+		var accepted []string
+		for _, n := range []int64{0, 1, 8, 15, 17, 24, 31, 32, 33, 64} {
+			if lenProbeSucceeds(newCipher, newCipher.Params[0], n, 0) {
+				accepted = append(accepted, fmt.Sprint(n))
+			}
+		}
+		ok16 := lenProbeSucceeds(newCipher, newCipher.Params[0], 16, 0)
+		if len(accepted) == 0 && ok16 {
+			c.Holds("G-C05-keylen", fname(newCipher), "len(key) == 16 guard", "for every probe length other than 16 no successful return is reachable (decided on values, following helpers that receive the key)", newCipher.Pos())
+		} else if !ok16 {
+			c.ViolatedHard("G-C05-keylen", fname(newCipher), "len(key) == 16 guard", "a 16-byte key cannot reach a successful return", newCipher.Pos())
+		} else {
+			c.ViolatedHard("G-C05-keylen", fname(newCipher), "len(key) == 16 guard", "keys of length "+strings.Join(accepted, ", ")+" bytes can reach a successful return: only 16-byte keys may be accepted", newCipher.Pos())
+		}
 		return
 	}
 	b := atom.Block()
@@ -1153,4 +1170,103 @@ func isUint32Seq(t types.Type) bool {
 	}
 	b, ok := el.Underlying().(*types.Basic)
 	return ok && b.Kind() == types.Uint32
+}
+
+// lenProbeSucceeds: can f reach a successful return when len(param) == n? Comparisons of len(param) with constants are
+// decided; `err != nil` on the error result of a repository callee that receives param is decided (true) when that
+// callee cannot succeed under the same probe. Everything else stays open, so "false" is a proof of rejection.
+func lenProbeSucceeds(f *ssa.Function, param ssa.Value, n int64, depth int) bool {
+	spec, ok := defaultResultSpec(f)
+	if !ok || f.Blocks == nil {
+		return true
+	}
+	isLen := func(v ssa.Value) bool {
+		call, ok := v.(*ssa.Call)
+		if !ok {
+			return false
+		}
+		bi, ok := call.Call.Value.(*ssa.Builtin)
+		return ok && bi.Name() == "len" && call.Call.Args[0] == param
+	}
+	// error values known to be non-nil under the probe
+	failing := func(v ssa.Value) bool {
+		var call *ssa.Call
+		switch x := v.(type) {
+		case *ssa.Call:
+			call = x
+		case *ssa.Extract:
+			call, _ = x.Tuple.(*ssa.Call)
+		}
+		if call == nil || depth >= 2 {
+			return false
+		}
+		sc := call.Call.StaticCallee()
+		if sc == nil || !inRepo(sc) || sc.Blocks == nil {
+			return false
+		}
+		for j, a := range call.Call.Args {
+			if a == param && j < len(sc.Params) {
+				return !lenProbeSucceeds(sc, sc.Params[j], n, depth+1)
+			}
+		}
+		return false
+	}
+	saved := condEval
+	defer func() { condEval = saved }()
+	condEval = func(v ssa.Value) (bool, bool) {
+		bo, ok := v.(*ssa.BinOp)
+		if !ok {
+			return false, false
+		}
+		op := bo.Op
+		var k int64
+		switch {
+		case isLen(bo.X):
+			kk, isK := constInt(bo.Y)
+			if !isK {
+				return false, false
+			}
+			k = kk
+		case isLen(bo.Y):
+			kk, isK := constInt(bo.X)
+			if !isK {
+				return false, false
+			}
+			k = kk
+			switch op {
+			case token.LSS:
+				op = token.GTR
+			case token.LEQ:
+				op = token.GEQ
+			case token.GTR:
+				op = token.LSS
+			case token.GEQ:
+				op = token.LEQ
+			}
+		case (op == token.NEQ || op == token.EQL) && isNilConst(bo.Y) && isErrorType(bo.X.Type()):
+			if failing(bo.X) {
+				return op == token.NEQ, true
+			}
+			return false, false
+		default:
+			return false, false
+		}
+		switch op {
+		case token.EQL:
+			return n == k, true
+		case token.NEQ:
+			return n != k, true
+		case token.LSS:
+			return n < k, true
+		case token.LEQ:
+			return n <= k, true
+		case token.GTR:
+			return n > k, true
+		case token.GEQ:
+			return n >= k, true
+		}
+		return false, false
+	}
+	r, _ := canReachSuccess(f.Blocks[0], nil, successExits(f, spec), deadEdges(f))
+	return r
 }
